@@ -26,7 +26,10 @@ fn gen(ch: &mut Ch, thorough: bool) -> Option<Case> {
     // quick: full alphabet on the all-five struct slice, reduced alphabet elsewhere
     let reduced = !thorough && !(si == 0 && container == Container::TupleStruct);
     // {PartialOrd, PartialEq} also with ONE consistent NaN-like partial key (no total by-function exists for it)
-    let style = if derived == [PartialEq, PartialOrd] && ch.pick(2) == 1 { KeyStyle::ConsistentPartial } else { KeyStyle::Consistent };
+    // subsets of {PartialEq, Eq, PartialOrd} too: with Eq derived, a `==` that goes through the partial key must be
+    // refused (hidden Eq assertion) - if such a program compiles, `==` is not reflexive and the law check reports it
+    let partial_ok = derived.contains(&PartialEq) && !derived.contains(&Ord) && !derived.contains(&Hash) && derived.len() >= 2;
+    let style = if partial_ok && ch.pick(2) == 1 { KeyStyle::ConsistentPartial } else { KeyStyle::Consistent };
     let reduced = reduced && style == KeyStyle::Consistent;
     let mut combo = Combo::PLAIN;
     for t in Tr::ALL {
@@ -39,6 +42,11 @@ fn gen(ch: &mut Ch, thorough: bool) -> Option<Case> {
             return None;
         }
         combo = combo.with(t, a);
+    }
+    // a user-supplied non-reflexive `by` FUNCTION behind an `Eq` impl is the user's doing (it cannot be checked):
+    // with Eq derived the partial style only explores `==` through keys or the field's own impl
+    if style == KeyStyle::ConsistentPartial && derived.contains(&Eq) && matches!(select(&combo, PartialEq), Sel::By(_)) {
+        return None;
     }
     let mut ts = container_spec(container, ctx, FieldSpec::cfg(combo, KeyForm::Method), style);
     // the enum container also with explicit discriminants in decreasing order
